@@ -11,13 +11,13 @@ import (
 
 // StopInfo is the reference model's view of the session at a stop.
 type StopInfo struct {
-	Gen   int
-	Step  int
-	Lower map[int]bool // publishes that must be resumed: accepted, final acknowledgement not handed to the client
-	Upper map[int]bool // publishes that may be resumed
-	Rel   map[int]bool // of Upper: PUBREL record stored (resume at stage PUBREL)
-	RelMaybe map[int]bool // PUBREL Save was in progress
-	Image map[uint][]byte
+	Gen              int
+	Step             int
+	Lower            map[int]bool // publishes that must be resumed: accepted, final acknowledgement not handed to the client
+	Upper            map[int]bool // publishes that may be resumed
+	Rel              map[int]bool // of Upper: PUBREL record stored (resume at stage PUBREL)
+	RelMaybe         map[int]bool // PUBREL Save was in progress
+	Image            map[uint][]byte
 	MarkerSaveFailed bool
 }
 
@@ -108,6 +108,8 @@ func (f *Flow) prepareAdoption() {
 			if _, ok := w.Disk.M[uint(pb.ID)]; ok {
 				pb.Deleted = false
 				pb.Resumed = true
+				pb.settled = 0
+				f.reactivate(pb)
 				f.Resumed[pb.QoS]++
 				f.Carry[[2]int{w.Gen + 1, int(pb.QoS)}] = true
 			}
@@ -277,7 +279,6 @@ func sortedInts(m map[int]bool) []int {
 	return l
 }
 
-
 // constructImage builds a disk image, in the documented record layout, that a
 // previous process could have left behind, with the pending identifier ranges
 // positioned at the 14-bit wrap-around. The ledger and the broker model get
@@ -313,6 +314,7 @@ func (f *Flow) constructImage() {
 		payload := []byte(topic + "|constructed")
 		pb := &Pub{Idx: len(f.Pubs), Task: "previous-process", QoS: qos, Topic: topic, Payload: payload, Invoke: 0, Ret: 1, Gen: 1, ID: id, Saved: true, SavedAny: true, FirstWire: 1}
 		f.Pubs = append(f.Pubs, pb)
+		f.Active = append(f.Active, pb)
 		f.byTopic[topic] = pb
 		f.byID[id] = pb
 		seqNo++
@@ -341,4 +343,13 @@ func (f *Flow) constructImage() {
 	si.Image = w.Disk.Snapshot()
 	f.Stops = append(f.Stops, si)
 	w.Ev("image", 0, "constructed image: %d at-least-once from %#x, %d PUBREL + %d exactly-once from %#x", n1, s1, nrel, n2, s2)
+}
+
+func (f *Flow) reactivate(pb *Pub) {
+	for _, a := range f.Active {
+		if a == pb {
+			return
+		}
+	}
+	f.Active = append(f.Active, pb)
 }
